@@ -60,7 +60,8 @@ func c15List(x *mcx.Exec, label string, max int) []any {
 	}
 	// a fixed third element behind a full list (the third and later entries of a list)
 	if len(l) == max && label == "path" && x.Choose(mcx.INPUT, 2, label+"[third]") == 1 {
-		l = append(l, c15Param("header:limit", label+"Third"), J{"$ref": "#/parameters/sp"})
+		// exactly one more: a decoded list of three has spare capacity (an append on it writes into the document's array)
+		l = append(l, c15Param("header:limit", label+"Third"))
 	}
 	return l
 }
